@@ -128,9 +128,9 @@ class TTuple(Ty):
             name = 'T_' + _san(self.key)
             if len(self.elems) == 0:
                 dt = z3.Datatype(name)
-                dt.declare('mk')
+                dt.declare('mk_' + name)
                 dt = dt.create()
-                _dt_cache[self.key] = (dt, dt.mk, [])
+                _dt_cache[self.key] = (dt, getattr(dt, 'mk_' + name), [])
             else:
                 s, mk, acc = z3.TupleSort(name, [e.sort() for e in self.elems])
                 _dt_cache[self.key] = (s, mk, acc)
@@ -158,29 +158,33 @@ class TOpt(Ty):
 
     def _dt(self):
         if self.key not in _dt_cache:
-            dt = z3.Datatype('O_' + _san(self.key))
-            dt.declare('none')
-            dt.declare('some', ('val', self.inner.sort()))
+            k = _san(self.key)
+            dt = z3.Datatype('O_' + k)
+            dt.declare('none_' + k)
+            dt.declare('some_' + k, ('val_' + k, self.inner.sort()))
             _dt_cache[self.key] = dt.create()
         return _dt_cache[self.key]
+
+    def _a(self, what):
+        return getattr(self._dt(), what + '_' + _san(self.key))
 
     def sort(self):
         return self._dt()
 
     def none(self):
-        return self._dt().none
+        return self._a('none')
 
     def some(self, t):
-        return self._dt().some(t)
+        return self._a('some')(t)
 
     def is_none(self, t):
-        return self._dt().is_none(t)
+        return self._a('is_none')(t)
 
     def is_some(self, t):
-        return self._dt().is_some(t)
+        return self._a('is_some')(t)
 
     def val(self, t):
-        return self._dt().val(t)
+        return self._a('val')(t)
 
 
 class TEnum(Ty):
